@@ -83,10 +83,10 @@ class VFn:
 
 class VMatch:
     """abstract re.Match object: groups are uninterpreted functions of (pattern, method, subject)"""
-    __slots__ = ('pattern', 'subject', 'method')
+    __slots__ = ('pattern', 'subject', 'method', 'offset')
 
-    def __init__(self, pattern, subject, method):
-        self.pattern, self.subject, self.method = pattern, subject, method
+    def __init__(self, pattern, subject, method, offset=0):
+        self.pattern, self.subject, self.method, self.offset = pattern, subject, method, offset
 
 
 class ZS:
@@ -235,6 +235,24 @@ class ZS:
                 if o is v or (isinstance(v, (str, int)) and type(o) is type(v) and o == v):
                     return terms[label]
             raise TypeError(f'{v!r} is not a member of enum {S.name}')
+        if zsort.name() in self.rec_by_sort and isinstance(v, VStruct):
+            # an immutable record object (dataclass / NamedTuple instance) stored as a value: field by field; a tuple field
+            # X is spread over the record fields X_0, X_1, ...
+            dt, S = self.rec_by_sort[zsort.name()]
+            import re as _re
+            vals = []
+            for fn_, fs_ in S.fields.items():
+                if fn_ in v.f:
+                    x = v.f[fn_]
+                else:
+                    m_ = _re.match(r'(.+)_(\d+)$', fn_)
+                    if not m_ or m_.group(1) not in v.f or not isinstance(v.f[m_.group(1)], tuple):
+                        raise TypeError(f'record field {fn_} has no counterpart in the object')
+                    x = v.f[m_.group(1)][int(m_.group(2))]
+                if isinstance(x, VOpt):
+                    raise TypeError('optional field in a record value')
+                vals.append(self.lift(x.term if isinstance(x, (VObj, VAbs)) else x, self.zsort(fs_)))
+            return dt.constructor(0)(*vals)
         if zsort.name() in self.rec_by_sort and isinstance(v, tuple):
             dt, S = self.rec_by_sort[zsort.name()]
             return dt.constructor(0)(*[self.lift(x, self.zsort(fs)) for x, fs in zip(v, S.fields.values())])
